@@ -877,6 +877,25 @@ fn u2fser(cap: usize, prior: &[u8], kind: &str, a: &[&str]) -> String {
         Ok(r) => r,
         Err(e) => return format!("unbuildable {e}"),
     };
+    // the public constructor must produce the same response as the struct literal whenever the public key is 0x04 || x || y
+    if let ctap1::Response::Register(lit) = &resp {
+        if lit.public_key.len() == 65 && lit.public_key[0] == 4 {
+            let pk = cosey::EcdhEsHkdf256PublicKey {
+                x: Bytes::from_slice(&lit.public_key[1..33]).unwrap(),
+                y: Bytes::from_slice(&lit.public_key[33..65]).unwrap(),
+            };
+            let via = ctap1::register::Response::new(
+                lit.header_byte,
+                &pk,
+                lit.key_handle.clone(),
+                lit.signature.clone(),
+                lit.attestation_certificate.clone(),
+            );
+            if via != *lit {
+                return "register::Response::new differs from the response with the same parts".into();
+            }
+        }
+    }
     cap_dispatch!(
         u2fser_n,
         cap,
